@@ -17,8 +17,8 @@ CONFIG = {
         engine="crash",
         level="fault_enumeration",
         tiers=dict(
-            quick=dict(runs=56, opts=dict(faultspec=dict(mode="sample", count=36, interrupts=3, tail_prob=0.2, tail_max=1), real_frac=0.15, real_count=10, pairs=0, limit=300)),
-            thorough=dict(runs=960, opts=dict(faultspec=dict(mode="all", interrupts=16, tail_prob=0.1, tail_max=2), slices=8, real_frac=0.08, real_count=16, pairs=1, limit=900)),
+            quick=dict(runs=56, opts=dict(faultspec=dict(mode="sample", count=40, interrupts=3, kills=3, tail_prob=0.2, tail_max=1), real_frac=0.15, real_count=10, pairs=0, limit=300)),
+            thorough=dict(runs=960, opts=dict(faultspec=dict(mode="all", interrupts=16, kills=12, tail_prob=0.1, tail_max=2), slices=8, real_frac=0.08, real_count=16, pairs=1, limit=900)),
         ),
         det=dict(quick=8, thorough=8),
         extra_stages=[
